@@ -35,6 +35,8 @@ func H_C14(tbl, router, stage int) {
 	verifAssume(!strings.HasSuffix(p, "/"))
 	verifAssume(len(strings.Trim(p, "/")) > 0)
 	verifAssume(strings.Count(strings.Trim(p, "/"), "/") < maxSeg)
+	// recorded finding: a regex variable that admits the empty string (table 23) under RouterJSR311
+	verifKnown("jsr311-nullable-regex-var", router == 1 && tbl == 23)
 	q.path = p
 	o1 := h.run(c, q)
 	q.path = p + "/"
